@@ -64,6 +64,7 @@ def run_once(scn, schedule=(), policy="first", rng=None, crash=None, d1=True, ma
         pos = 0
         nframes = 0
         crashed = False
+        nquiet = 0
         down_for = None
         n = 0
         phase_d1 = False
@@ -80,6 +81,19 @@ def run_once(scn, schedule=(), policy="first", rng=None, crash=None, d1=True, ma
                     down_for = None
                     continue
                 t = w.next_time()
+                # crash in a quiet period: while the engine only waits for a timer or a reply (the k-th time the clock
+                # would move), it dies part of the way there and comes back a little later
+                if crash and not crashed and "quiet" in crash and t is not None and not phase_d1 and not w._only_far(t):
+                    if nquiet == crash["quiet"]:
+                        span = t - W.CLOCK.now
+                        w.advance(W.CLOCK.now + span * crash.get("frac", 0.5))
+                        w.crash("i0")
+                        crashed = True
+                        res.crash = dict(crash)
+                        W.CLOCK.now += span * crash.get("down", 0.2)
+                        w.restart("i0")
+                        continue
+                    nquiet += 1
                 if not phase_d1:
                     if t is None or w._only_far(t):
                         w.quiesce("D0")
@@ -102,7 +116,7 @@ def run_once(scn, schedule=(), policy="first", rng=None, crash=None, d1=True, ma
                     w.advance(t)
                     continue
             # crash at a frame boundary?
-            if crash and not crashed and "op" not in crash and nframes >= crash["frame"]:
+            if crash and not crashed and "op" not in crash and "quiet" not in crash and nframes >= crash["frame"]:
                 w.crash("i0")
                 crashed = True
                 down_for = crash.get("restart_after", 0)
@@ -126,7 +140,7 @@ def run_once(scn, schedule=(), policy="first", rng=None, crash=None, d1=True, ma
             else:
                 step = st[0]
             is_engine_frame = step[0] in ("dlv", "timer", "ret")
-            if crash and not crashed and "op" in crash and is_engine_frame and nframes == crash["frame"]:
+            if crash and not crashed and "op" in crash and "quiet" not in crash and is_engine_frame and nframes == crash["frame"]:
                 did = w.crash_inside("i0", step, crash["op"])
                 crashed = True
                 res.crash = dict(crash, hit=did)
